@@ -120,3 +120,19 @@ Qed.
 (* ... and across a kill inside any operation the persisted balance of every user is at most what the operation
    grants above the balance before it (CrashOpsProofs), so over a whole history a kill + restart never adds slots
    beyond the interrupted request's grant *)
+
+(* every statement proved under the tower invariant holds in every state of a history with kills and restarts *)
+Theorem rreach_lifts (P : tower -> Prop) : (forall t, Inv t -> P t) -> forall le t, rreach le t -> P t.
+Proof. intros HP le t H. apply HP. exact (rreach_inv le t H). Qed.
+
+(* e.g. the purge is exact in all of them (TowerSubs.purge_exact) *)
+Corollary rreach_purge_exact le t h t' :
+  rreach le t -> gk_block_connected t h = Ok tt t' ->
+  (forall u, aget (db_users t') u =
+             match aget (db_users t) u with
+             | Some ui => if N.leb (u_expiry ui + c_delta (cfg t)) h then None else Some ui
+             | None => None
+             end) /\ gk_height t' = h.
+Proof.
+  intros H E. destruct (purge_exact t h t' (rreach_inv le t H) E) as [U [_ [_ Hh]]]. split; [exact U|exact Hh].
+Qed.
